@@ -28,13 +28,36 @@ def surface(d, k):
     return {1: 2.0 + 0.0 * k, 2: 2.0 * np.pi * k, 3: 4.0 * np.pi * k ** 2}[d]
 
 
-def build(gs, cls, d, e, variant):
+OPT = {"JBessel": dict(nu=0.5), "SuperSpherical": dict(nu=1.0), "TPLSimple": dict(nu=2.0)}   # admissible in dim 1-3
+ROUTES = ["direct", "dim-assigned", "len-assigned", "rescale-assigned"]
+TPL = ("TPLGaussian", "TPLExponential", "TPLStable")
+
+
+def build(gs, cls, d, e, variant, route="direct", **over):
+    """The model of a case.  Routes other than "direct" build another model first and assign the final values."""
     kw = dict(dim=d, var=VAR, len_scale=LEN * 2.0 ** e)
+    kw.update(OPT.get(cls, {}))
     if variant == "rescaled":
         kw["rescale"] = 4.0
-    if variant == "lower-truncation" and cls in ("TPLGaussian", "TPLExponential", "TPLStable"):
+    if variant == "lower-truncation" and cls in TPL:
         kw["len_low"] = 0.5 * 2.0 ** e
-    return getattr(gs, cls)(**kw)
+    kw.update(over)
+    c = getattr(gs, cls)
+    if route == "dim-assigned":
+        m = c(**dict(kw, dim=d - 1 if d > 1 else 2))
+        m.dim = d
+        return m
+    if route == "len-assigned":
+        m = c(**dict(kw, len_scale=3.0 * kw["len_scale"]))
+        m.len_scale = kw["len_scale"]
+        m.var = VAR          # (the variance of a truncated power law follows its intensity: documented coupling)
+        return m
+    if route == "rescale-assigned":
+        m = c(**{k: v for k, v in kw.items() if k != "rescale"})
+        m.rescale = kw.get("rescale", m.rescale)
+        m.var = VAR
+        return m
+    return c(**kw)
 
 
 def capabilities(gs):
@@ -56,9 +79,11 @@ def capabilities(gs):
 def mc_text(name, cdf, ppf, exps):
     def fun(tab):
         return "[c \\in McClasses |-> CASE " + " [] ".join('c = "%s" -> {%s}' % (c, ", ".join(str(x) for x in sorted(tab[c]))) for c in CLASSES) + "]"
-    mod = ("---- MODULE %s ----\nEXTENDS Spectral\nMcClasses == {%s}\nMcExps == {%s}\nMcHasCdf == %s\nMcHasPpf == %s\n====\n"
-           % (name, ", ".join('"%s"' % c for c in CLASSES), ", ".join("0 - %d" % -x if x < 0 else str(x) for x in exps), fun(cdf), fun(ppf)))
+    mod = ("---- MODULE %s ----\nEXTENDS Spectral\nMcRoutes == {%s}\nMcTPL == {%s}\nMcClasses == {%s}\nMcExps == {%s}\nMcHasCdf == %s\nMcHasPpf == %s\n====\n"
+           % (name, ", ".join('"%s"' % r for r in ROUTES), ", ".join('"%s"' % t for t in TPL), ", ".join('"%s"' % c for c in CLASSES),
+              ", ".join("0 - %d" % -x if x < 0 else str(x) for x in exps), fun(cdf), fun(ppf)))
     cfg = ("CONSTANTS\n Classes <- McClasses\n Dims = {1, 2, 3}\n UnitExps <- McExps\n KIdx = {%s}\n HasCdf <- McHasCdf\n HasPpf <- McHasPpf\n"
+           " Routes <- McRoutes\n TPLFamily <- McTPL\n"
            "INIT Init\nNEXT Next\nINVARIANT PdfIsDensity\nINVARIANT DensityIsDensity\nINVARIANT SurfaceRoute\nINVARIANT PpfInvertsCdf\n"
            % ", ".join(str(i) for i in range(len(KAPPA))))
     return mod, cfg
@@ -91,11 +116,25 @@ def base_values(gs, cls, d, variant):
 def run_case(gs, c, exp, variant):
     """Returns list of (key, message)."""
     cls, d, e, j = str(c["cls"]), int(c["d"]), int(c["e"]), int(c["j"])
+    route = str(c.get("route", "direct"))
     out = []
+    if route == "rescale-assigned" and variant != "rescaled":
+        return None
     try:
-        m = build(gs, cls, d, e, variant)
+        m = build(gs, cls, d, e, variant, route)
     except Exception:  # noqa: BLE001 - class not available in this dimension
         return None
+    if route != "direct":
+        # the route is not observable: every spectral function equals that of the directly built model
+        ref = build(gs, cls, d, e, variant)
+        ka = np.array([base_values(gs, cls, d, variant)["k"][j] / 2.0 ** e])
+        where = "%s(dim=%d, len_scale=%g*2^%d, %s) built via %s at k = %g / len" % (cls, d, LEN, e, variant, route, KAPPA[j])
+        for fn in ("spectral_density", "spectrum", "spectral_rad_pdf") + (("spectral_rad_cdf",) if m._has_cdf() else ()):
+            a, b_ = float(getattr(m, fn)(ka)[0]), float(getattr(ref, fn)(ka)[0])
+            if not close(a, b_, abs(b_), 1e-13):
+                out.append(("route:%s:%s" % (route, fn), "%s: %s = %r, the directly constructed model gives %r" % (where, fn, a, b_)))
+                break
+        return out
     numeric = type(m).spectral_density is gs.CovModel.spectral_density
     tag = "numeric-transform" if numeric else "closed-form"
     b = base_values(gs, cls, d, variant)
@@ -121,6 +160,14 @@ def run_case(gs, c, exp, variant):
     want = {"zero": 0.0, "twice-density": 2.0 * dens}.get(str(exp["pdfAtOrigin"]), float(surface(d, ka)[0]) * dens)
     if not close(pdf, want, pscale * 2.0 ** int(exp["radPdfPow"])):
         out.append(("rad-pdf:surface-factor:%s" % cls, "%s: spectral_rad_pdf = %r, surface factor x density = %r" % (where, pdf, want)))
+    if exp.get("tplParts") and variant == "lower-truncation" and not numeric:
+        hurst = float(m.hurst)
+        low, up = float(m.len_low), float(m.len_low + m.len_scale)
+        d_up = float(build(gs, cls, d, e, "plain", len_scale=up, len_low=0.0).spectral_density(ka)[0])
+        d_lo = float(build(gs, cls, d, e, "plain", len_scale=low, len_low=0.0).spectral_density(ka)[0])
+        parts = (up ** (2 * hurst) * d_up - low ** (2 * hurst) * d_lo) / (up ** (2 * hurst) - low ** (2 * hurst))
+        if not close(dens, parts, abs(parts), 1e-9):
+            out.append(("tpl-parts:%s" % cls, "%s: spectral_density = %r, the weighted difference of the densities of [0, up] and [0, low] is %r" % (where, dens, parts)))
     if exp["checkCdf"]:
         cdf = float(m.spectral_rad_cdf(ka)[0])
         if not close(cdf, b["cdf"][j], 1.0):
@@ -178,7 +225,7 @@ def run(pid, tier, seed, replay=None):
         rp = json.load(open(replay))["replay"]
         c = rp["case"]
         print(rp, "->", run_case(gs, c, {"densityPow": c["e"] * c["d"], "radPdfPow": c["e"], "pdfAtOrigin": "zero" if (c["j"] == 0 and c["d"] > 1) else (
-            "twice-density" if c["j"] == 0 else "surface-x-density"), "cdfAtOrigin": "zero" if c["j"] == 0 else "in", "cdfSlope": "rad-pdf" if c["j"] else "no", "checkCdf": True, "checkPpf": True}, rp["variant"]))
+            "twice-density" if c["j"] == 0 else "surface-x-density"), "cdfAtOrigin": "zero" if c["j"] == 0 else "in", "cdfSlope": "rad-pdf" if c["j"] else "no", "tplParts": c["cls"] in TPL, "checkCdf": True, "checkPpf": True}, rp["variant"]))
         return 0
     import gstools as gs
 
@@ -196,8 +243,9 @@ def run(pid, tier, seed, replay=None):
             rep.violation("design:Spectral:%s" % r.error[1], "the dimensional analysis violates %s" % r.error[1], {"trace": tlc.error_trace(r)})
         cases = []
         for st in tlc.read_state_dump(sc.path("sp.dump")):
-            c = {k: (str(v) if k == "cls" else int(v)) for k, v in st["case"].items()}
-            cases.append((c, {k: (v if isinstance(v, bool) else (str(v) if isinstance(v, (str, tlaval.Sym)) else int(v))) for k, v in st["expect"].items()}))
+            c = {k: (str(v) if k in ("cls", "route") else int(v)) for k, v in st["case"].items()}
+            cases.append((c, {k: (v if isinstance(v, bool) else (str(v) if isinstance(v, (str, tlaval.Sym)) else (v if isinstance(v, dict) else int(v))))
+                              for k, v in st["expect"].items()}))
     rng.shuffle(cases)
     variants = ["plain", "rescaled", "lower-truncation"]
     import multiprocessing as mp
